@@ -39,6 +39,9 @@ mod cal {
     // --- must-panic idiom: marker after a panicking operation is unreachable
     #[kani::proof] fn cal_must_panic_ok() { let (m, s) = small8(); kani::assume(!(m == 1 && s == 0)); kani::cover!(true, "vk_end"); let _ = Quantity::new(1.0, MILLIMETER) + Quantity::new(2.0, Unit::new(m, s)); vk_assert!(false, "CAL.marker_unreachable"); }
     #[kani::proof] fn cal_must_panic_missing() { let (m, s) = small8(); kani::cover!(true, "vk_end"); let _ = Quantity::new(1.0, MILLIMETER) + Quantity::new(2.0, Unit::new(m, s)); vk_assert!(false, "CAL.must_fail.marker_reachable"); }
+    // --- never-written MaybeUninit memory must read as an arbitrary value (C16 relies on it)
+    #[kani::proof] fn cal_uninit_is_nondet() { let m = core::mem::MaybeUninit::<u32>::uninit(); let v = unsafe { m.assume_init() }; vk_assert!(v == 0, "CAL.must_fail.uninit_is_nondet_a"); vk_end!(); }
+    #[kani::proof] fn cal_uninit_is_nondet_array() { let mut a: [core::mem::MaybeUninit<u32>; 3] = [core::mem::MaybeUninit::uninit(); 3]; a[0].write(5); let v = unsafe { a[1].assume_init() }; vk_assert!(v != 77, "CAL.must_fail.uninit_is_nondet_b"); vk_end!(); }
     // --- skeleton hook: the linked C stub decides the branch
     #[kani::proof] fn cal_skeleton() { let (a, b) = (sym_f32(), sym_f32()); let r = match sk(0) { 0 => a + b, 1 => a / b, _ => a }; let q = match sk(0) { 0 => Quantity::new(a, SECOND) + Quantity::new(b, SECOND), 1 => Quantity::new(a, SECOND) / Quantity::new(b, SECOND), _ => Quantity::new(a, SECOND) }; vk_assert!(same(q.value, r), "CAL.skeleton_value"); vk_assert!(sk(1) == 7 && sk(2) == 0xFFFF, "CAL.skeleton_table"); vk_end!(); }
 }
@@ -67,6 +70,8 @@ CASES = {
     "cal_vacuous": ("error", {}),
     "cal_must_panic_ok": ("proved", {"allow_fail": PANIC_DIM}),
     "cal_must_panic_missing": ("failed", {"allow_fail": PANIC_DIM}),
+    "cal_uninit_is_nondet": ("failed", {}),
+    "cal_uninit_is_nondet_array": ("failed", {}),
     "cal_skeleton": ("proved", {"skeletons": [(0, 7), (1, 7), (2, 7)], "engines": ("e2",)}),
 }
 
